@@ -61,6 +61,8 @@ pub fn pool(clauses: &[String]) -> Vec<String> {
     out
 }
 
+const LATE_RULE_CLAUSES: &[&str] = &["It is worst than before", "He was aloud to go", "The whole entire thing broke", "It took a turn for the worst", "It was trail and error", "I want be there", "It is wide spread", "We are world wide"];
+
 /// rules (configuration keys) that produce a lint on `clause` when enabled alone; cached per process
 pub fn firing_rules(clause: &str) -> Vec<String> {
     use std::collections::HashMap;
@@ -72,6 +74,29 @@ pub fn firing_rules(clause: &str) -> Vec<String> {
     }
     let dict = FstDictionary::curated();
     let doc = Document::new(clause, &harper_core::parsers::PlainEnglish, &dict);
+    if LATE_RULE_CLAUSES.contains(&clause) {
+        // one linter per rule: a helper that re-used one linter would inherit any caching defect
+        // of the code under test and never see these rules fire
+        let keys = &g::harvest().rule_keys;
+        let found: Mutex<Vec<String>> = Mutex::new(vec![]);
+        std::thread::scope(|sc| {
+            for chunk in keys.chunks(keys.len().div_ceil(8).max(1)) {
+                let (found, doc, dict) = (&found, &doc, &dict);
+                sc.spawn(move || {
+                    for k in chunk {
+                        let mut group = LintGroup::new_curated(dict.clone(), DIALECTS[0]).with_lint_config(ConfigSpec::only(&[k.as_str()]).build());
+                        if crate::core::catch(std::panic::AssertUnwindSafe(|| !group.lint(doc).is_empty())).unwrap_or(false) {
+                            found.lock().unwrap().push(k.clone());
+                        }
+                    }
+                });
+            }
+        });
+        let mut out = found.into_inner().unwrap();
+        out.sort();
+        cache.lock().unwrap().insert(clause.to_string(), out.clone());
+        return out;
+    }
     let mut group = LintGroup::new_curated(dict, DIALECTS[0]);
     let mut out = vec![];
     for k in &g::harvest().rule_keys {
@@ -189,7 +214,7 @@ fn clause() -> BoxedStrategy<String> {
         2 => g::mutated_sentence().prop_map(|s| s.replace('\n', " ")),
         2 => g::word_sentence().prop_map(|s| s.replace('\n', " ")),
         // rules from the end of the alphabetical rule list (positions in packed or truncated digests)
-        1 => g::sel_str(&["It is worst than before", "He was aloud to go", "The whole entire thing broke", "It took a turn for the worst", "It was trail and error", "I want be there", "It is wide spread", "We are world wide"]),
+        1 => g::sel_str(LATE_RULE_CLAUSES),
         1 => g::sel_str(&["--and then it rained", "-- draft --> out.", "---so what", "'s the day", ") an apple", "-ish then"]),
         1 => g::sel_str(&["I could **of** done it", "their *is* an `apple`", "the the _cat_", "an [apple](x) a day", "# teh heading", "he said \"an apple\" <b>teh</b>", "#let x = [teh]", "1. could of"]),
     ]
